@@ -153,6 +153,8 @@ pub struct Gen<'t, 'd> {
     /// the bottom of the last append reads a let-table
     pub append_let_bottom: bool,
     pub force_right_let: Option<usize>,
+    /// see gen_lets
+    pub module_scheme: bool,
     cur_src_let: bool,
     after_append: bool,
     in_sub: bool,
@@ -253,6 +255,7 @@ impl<'t, 'd> Gen<'t, 'd> {
             main_scaffold: None,
             append_let_bottom: false,
             force_right_let: None,
+            module_scheme: false,
             cur_src_let: false,
             after_append: false,
             in_sub: false,
@@ -1903,7 +1906,8 @@ impl<'t, 'd> Gen<'t, 'd> {
         }
         // sometimes the bottom pipeline is declared as a let-table of its own and appended by
         // name (`append la0`); other parts of the program may read the same let-table
-        if self.cfg.allow_lets && matches!(bottom_src, SrcKind::Table(_)) && self.t.chance(1, 4) {
+        // (not inside a module let-table: the new declaration would be printed after the module)
+        if self.cfg.allow_lets && !(self.module_scheme && self.in_sub) && matches!(bottom_src, SrcKind::Table(_)) && self.t.chance(1, 4) {
             self.append_let_bottom = true;
             let lname = format!("la{}", self.lets.len());
             let lf = Frame {
@@ -2353,18 +2357,31 @@ impl<'t, 'd> Gen<'t, 'd> {
         if !self.cfg.allow_lets {
             return;
         }
-        let n = self.t.weighted(&[5, 3, 2]);
+        let mut n = self.t.weighted(&[5, 3, 2]);
+        // sometimes the first two let-tables live in two modules under the same local name
+        // (`ma.lt`, `mb.lt`): both become CTEs whose given names clash
+        self.module_scheme = !self.cfg.hazard_names && self.t.chance(1, 6);
+        if self.module_scheme {
+            n = n.max(2);
+        }
         for i in 0..n {
             let ns = 1 + self.t.choose(3);
             self.in_sub = true;
             let (pipe, frame, ord) = self.gen_pipeline(ns, 0);
             self.in_sub = false;
-            let name = self.names.lets.get(i).cloned().unwrap_or_else(|| format!("l{i}"));
+            let mut name = self.names.lets.get(i).cloned().unwrap_or_else(|| format!("l{i}"));
+            let mut module = None;
+            let mut into = self.t.chance(1, 4);
+            if self.module_scheme && i < 2 {
+                name = "lt".to_string();
+                module = Some(if i == 0 { "ma" } else { "mb" }.to_string());
+                into = false;
+            }
             self.lets.push(LetDef {
                 name,
                 pipe,
-                into: self.t.chance(1, 4),
-                module: None,
+                into,
+                module,
             });
             self.let_frames.push((frame, ord));
         }
@@ -2399,6 +2416,13 @@ impl<'t, 'd> Gen<'t, 'd> {
                 });
                 self.let_frames.push((f, o));
                 self.main_scaffold = Some((li, self.lets.len() - 1));
+            }
+        }
+        if self.module_scheme && self.main_scaffold.is_none() && self.lets.len() >= 2 && self.t.chance(2, 3) {
+            // the main pipeline reads both same-named module let-tables
+            let pos = |m: &str| self.lets.iter().position(|l| l.module.as_deref() == Some(m));
+            if let (Some(a), Some(b)) = (pos("ma"), pos("mb")) {
+                self.main_scaffold = Some((a, b));
             }
         }
         let ns = self.t.choose(self.cfg.max_steps + 1);
